@@ -80,6 +80,11 @@ def _preprocess_layer_args(frame, start, end, value):
         end = None
     if frame is not None:
         start, end, value = _extract_from_frame(frame, start, end, value)
+    # a missing scalar bound may also be given as NaN / NaT, as in the vector form
+    if start is not None and not is_list_like(start) and pd.isna(start):
+        start = None
+    if end is not None and not is_list_like(end) and pd.isna(end):
+        end = None
     if value is None:
         value = 1
     return start, end, value
